@@ -102,7 +102,8 @@ def commands(files, has_dep5):
     target = "src/sub/b.py" if "src/sub/b.py" in files else next(iter(files))
     cmds = [["lint"], ["lint", "--json"], ["lint", "--lines"], ["lint-file", "src/a.py", target], ["spdx"], ["spdx", "-o", "bom.spdx"],
             ["annotate", "--copyright", "V", "--license", "MIT", "--year", "2020", *(["--template", "odd"] if ".reuse/templates/odd.jinja2" in files else []), target],
-            ["download", "LicenseRef-verif"]]
+            ["download", "LicenseRef-verif"],
+            ["annotate", "--copyright", "V", "--license", "()", target], ["annotate", "--copyright", "V", "--license", "(AND 1", target]]
     if has_dep5:
         cmds.append(["convert-dep5"])
     return cmds
@@ -116,6 +117,10 @@ def run_all(ctx, case, files, config_paths=(), expect_usage=False, fault_plan=No
         tree.write_tree(root, files)
         if ".gitmodules" in files:
             tree.git_init(root)
+            # an ignored file whose name is not valid UTF-8
+            (root / ".gitignore").write_text("*.o\n")
+            with open(os.fsencode(str(root)) + b"/\xff\xfe.o", "wb") as fp:
+                fp.write(b"object\n")
         plan = {str(root / p): k for p, k in (fault_plan or {}).items()}
         has_dep5 = ".reuse/dep5" in files
         for cmd in commands(files, has_dep5):
@@ -131,6 +136,11 @@ def run_all(ctx, case, files, config_paths=(), expect_usage=False, fault_plan=No
                 continue
             if res.code not in (0, 1, 2):
                 ctx.fail(dict(case, command=cmd), f"{what}: `reuse {' '.join(cmd)}` exit status {res.code}")
+            bad_arg = "--license" in cmd and cmd[cmd.index("--license") + 1] in ("()", "(AND 1")
+            if bad_arg:
+                if res.code != 2:
+                    ctx.fail(dict(case, command=cmd), f"{what}: a degenerate --license argument must be a usage error (exit 2): {res.brief()}")
+                continue
             if res.code == 2 and config_paths and cmd[0] != "download":
                 text = res.err + res.out
                 if not any(p in text or os.path.basename(p) in text for p in config_paths):
@@ -284,7 +294,7 @@ JINJA_TOKENS = ["{{ ", " }}", "{% ", " %}", "{# ", " #}", "for x in ", "copyrigh
                 "()", "1", " / 0", " | ", "join", "upper", "\n", "SPDX-License-Identifier: ", "{{ expression }}", "{% for expression in spdx_expressions %}", "{% endfor %}", "{% for copyright_line in copyright_lines %}",
                 "{{ copyright_line }}", "'", "[0]", "é"]
 GITCONFIG_TOKENS = ['[submodule "a"]\n', "[submodule]\n", '[submodule "b c"]\n', "\tpath = sub\n", "\tpath =\n", "\tpath\n", "\tpath = src/sub\n", "\tpath = ../out\n", "\tpath = /abs\n", "\turl = https://example.org/x.git\n",
-                    "[core]\n", "\tpath = \"quo ted\"\n", "[submodule \"a\"\n", "\tpath = a\\\n", "garbage\n", "\tpath = é\n", "= x\n", "[\n"]
+                    "[core]\n", "\tpath = \"quo ted\"\n", "[submodule \"a\"\n", "\tpath = a\\\n", "garbage\n", "\tpath = é\n", "= x\n", "[\n", "\tpath = \udcff\udcfe\n"]
 
 
 @st.composite
@@ -293,7 +303,7 @@ def content_case(draw):
     if where == "template" and draw(st.booleans()):
         data = "".join(draw(st.lists(st.sampled_from(JINJA_TOKENS), min_size=1, max_size=10))).encode()
     elif where == "gitmodules" and draw(st.integers(0, 3)) != 0:
-        data = "".join(draw(st.lists(st.sampled_from(GITCONFIG_TOKENS), min_size=1, max_size=8))).encode()
+        data = "".join(draw(st.lists(st.sampled_from(GITCONFIG_TOKENS), min_size=1, max_size=8))).encode("utf-8", "surrogateescape")
     else:
         data = draw(st.one_of(st.sampled_from(ODD_CONTENT), st.binary(min_size=1, max_size=200),
                           st.binary(min_size=1, max_size=60).map(lambda b: b"SPDX-License-Identifier: " + b + b"\n"),
@@ -373,7 +383,7 @@ def run(ctx):
             if (i * 3 + j) % ctx.nshards == ctx.shard:
                 check_content(ctx, {"gen": "content", "where": where, "data": data, "fault": None, "fault_on": "c.txt"})
     # a well-formed dep5 whose License field is not an SPDX expression is a broken configuration file
-    bad = list(V.INVALID_EXPRESSIONS) + ["()", "(AND 1", "GPL-2.0+*with exception"]
+    bad = list(V.INVALID_EXPRESSIONS) + ["()", "(AND 1", "GPL-2.0+*with exception", ""]
     for i, expr in enumerate(bad):
         for j, second in enumerate((False, True)):
             if (i * 2 + j) % ctx.nshards == ctx.shard:
